@@ -2091,7 +2091,8 @@ def recode_cases(jobs):
 
                     ns["recurse"] = o_recurse
                     ns["call_next"] = o_next
-                    ns["F"] = o_recurse
+                    # (with self: the function's own name is not bound - it is called in full, F(self, x))
+                    ns["F"] = (lambda h_, *a_, **k_: o_recurse(*a_, **k_)) if wrapper == "self" else o_recurse
                     exec(compile(src, fname, "exec"), ns, ns)
                     holder["top"] = ns["make"](7) if wrapper == "closure" else ns["m_top"]
                     if wrapper == "self":
